@@ -78,30 +78,54 @@ fn cases(g: &Grid) -> Vec<Case> {
             (Scen::TryAccept, &[PeerMode::Ready, PeerMode::Absent][..]),
         ] {
             for &peer in peers {
-                v.push(Case { scen, fam, len: 0, cap: 4, mode: 0, timeout: None, peer });
+                v.push(Case { scen, fam, len: 0, cap: 4, mode: 0, timeout: None, peer, obtain: 0, use_: 0 });
             }
         }
         for &t in &g.timeouts {
             for peer in [PeerMode::Ready, PeerMode::Absent] {
-                v.push(Case { scen: Scen::AcceptTimeout, fam, len: 0, cap: 4, mode: 0, timeout: Some(t), peer });
+                v.push(Case { scen: Scen::AcceptTimeout, fam, len: 0, cap: 4, mode: 0, timeout: Some(t), peer, obtain: 0, use_: 0 });
             }
         }
         for peer in [PeerMode::Ready, PeerMode::Late, PeerMode::Absent] {
-            v.push(Case { scen: Scen::Connect, fam, len: 0, cap: 4, mode: 0, timeout: None, peer });
-            v.push(Case { scen: Scen::TryConnect, fam, len: 0, cap: 4, mode: 0, timeout: None, peer });
+            v.push(Case { scen: Scen::Connect, fam, len: 0, cap: 4, mode: 0, timeout: None, peer, obtain: 0, use_: 0 });
+            v.push(Case { scen: Scen::TryConnect, fam, len: 0, cap: 4, mode: 0, timeout: None, peer, obtain: 0, use_: 0 });
         }
     }
-    v.push(Case { scen: Scen::TryConnect, fam: Fam::Tcp, len: 0, cap: 4, mode: 0, timeout: None, peer: PeerMode::Blackhole });
+    v.push(Case { scen: Scen::TryConnect, fam: Fam::Tcp, len: 0, cap: 4, mode: 0, timeout: None, peer: PeerMode::Blackhole, obtain: 0, use_: 0 });
     for &t in &g.timeouts {
         for peer in [PeerMode::Ready, PeerMode::Late, PeerMode::Absent, PeerMode::Blackhole] {
-            v.push(Case { scen: Scen::ConnectTimeout, fam: Fam::Tcp, len: 0, cap: 4, mode: 0, timeout: Some(t), peer });
+            v.push(Case { scen: Scen::ConnectTimeout, fam: Fam::Tcp, len: 0, cap: 4, mode: 0, timeout: Some(t), peer, obtain: 0, use_: 0 });
         }
     }
     for peer in [PeerMode::Ready, PeerMode::Late, PeerMode::Absent, PeerMode::Blackhole] {
-        v.push(Case { scen: Scen::InProgTry, fam: Fam::Tcp, len: 0, cap: 4, mode: 0, timeout: None, peer });
+        v.push(Case { scen: Scen::InProgTry, fam: Fam::Tcp, len: 0, cap: 4, mode: 0, timeout: None, peer, obtain: 0, use_: 0 });
     }
     for peer in [PeerMode::Ready, PeerMode::Late, PeerMode::Absent] {
-        v.push(Case { scen: Scen::InProgBlocking, fam: Fam::Tcp, len: 0, cap: 4, mode: 0, timeout: None, peer });
+        v.push(Case { scen: Scen::InProgBlocking, fam: Fam::Tcp, len: 0, cap: 4, mode: 0, timeout: None, peer, obtain: 0, use_: 0 });
+    }
+    // --- every way of obtaining a stream x every way of using it, peer connected but silent
+    for &fam in &fams {
+        for obtain in 0..scen::OBTAINS.len() {
+            if fam == Fam::Unix && obtain >= 5 {
+                continue;
+            }
+            for use_ in 0..scen::USES.len() {
+                let cap = 2usize;
+                let base = Case { scen: Scen::Chain, fam, len: 0, cap, mode: 0, timeout: None, peer: PeerMode::Ready, obtain, use_ };
+                match use_ {
+                    0 => {
+                        // only TcpStream has a timed read
+                        if fam == Fam::Tcp {
+                            for &t in &g.timeouts {
+                                v.push(Case { timeout: Some(t), ..base.clone() });
+                            }
+                        }
+                    }
+                    1 => v.push(base),
+                    _ => v.push(Case { len: cap + 2, ..base }),
+                }
+            }
+        }
     }
     // --- data
     for len in 0..=g.max_len {
@@ -116,7 +140,7 @@ fn cases(g: &Grid) -> Vec<Case> {
                     wmodes.push(2);
                 }
                 for mode in wmodes {
-                    v.push(Case { scen: Scen::Write, fam, len, cap, mode, timeout: None, peer: PeerMode::Ready });
+                    v.push(Case { scen: Scen::Write, fam, len, cap, mode, timeout: None, peer: PeerMode::Ready, obtain: 0, use_: 0 });
                 }
                 let mut rmodes = vec![0usize, 1, 2];
                 if len >= 2 {
@@ -126,7 +150,7 @@ fn cases(g: &Grid) -> Vec<Case> {
                     rmodes.push(len + 2);
                 }
                 for mode in rmodes {
-                    v.push(Case { scen: Scen::Read, fam, len, cap, mode, timeout: None, peer: PeerMode::Ready });
+                    v.push(Case { scen: Scen::Read, fam, len, cap, mode, timeout: None, peer: PeerMode::Ready, obtain: 0, use_: 0 });
                 }
             }
         }
@@ -134,10 +158,10 @@ fn cases(g: &Grid) -> Vec<Case> {
             for &cap in &[1usize, 4] {
                 for &t in &g.timeouts {
                     for mode in [2usize, 3] {
-                        v.push(Case { scen: Scen::ReadTimeout, fam: Fam::Tcp, len, cap, mode, timeout: Some(t), peer: PeerMode::Ready });
+                        v.push(Case { scen: Scen::ReadTimeout, fam: Fam::Tcp, len, cap, mode, timeout: Some(t), peer: PeerMode::Ready, obtain: 0, use_: 0 });
                     }
                     if len == 0 && cap == 1 {
-                        v.push(Case { scen: Scen::ReadTimeout, fam: Fam::Tcp, len, cap, mode: 2, timeout: Some(t), peer: PeerMode::Absent });
+                        v.push(Case { scen: Scen::ReadTimeout, fam: Fam::Tcp, len, cap, mode: 2, timeout: Some(t), peer: PeerMode::Absent, obtain: 0, use_: 0 });
                     }
                 }
             }
@@ -234,6 +258,7 @@ fn menu_from(conf: &Report) -> (Menu, Vec<String>) {
     m.tcp_einprogress = get("tcp-connect-einprogress-then-0");
     m.tcp_ealready = get("tcp-connect-ealready");
     m.tcp_refused = get("tcp-connect-refused");
+    m.blocking_sleeps = get("blocking-read-sleeps") & get("blocking-accept-sleeps");
     (m, off)
 }
 
